@@ -42,7 +42,11 @@ def gen_history(rnd: random.Random, root="/vh"):
     files[root + "/conftest.py"] = File(root + "/conftest.py", "import pytest\n", [fixture_block(rnd, n) for n in names if rnd.random() < 0.7])
     helper_names = [n for n in names if rnd.random() < 0.6] or [names[0]]
     files[sub + "/helpers.py"] = File(sub + "/helpers.py", "import pytest\n", [fixture_block(rnd, n) for n in helper_names])
-    imp = rnd.choice(["from .helpers import *\n", "from .helpers import %s\n" % helper_names[0], ""])
+    # a second helper module the conftest's star import can be retargeted to (same statement
+    # shape, other module: the set of module-level names of the conftest does not change)
+    files[sub + "/helpers2.py"] = File(sub + "/helpers2.py", "import pytest\n",
+                                        [fixture_block(rnd, n) for n in names if rnd.random() < 0.6] or [fixture_block(rnd, names[-1])])
+    imp = rnd.choice(["from .helpers import *\n", "from .helpers import %s\n" % helper_names[0], "", "from .helpers2 import *\n"])
     files[sub + "/conftest.py"] = File(sub + "/conftest.py", "import pytest\n" + imp,
                                        [fixture_block(rnd, n, [n]) for n in names if rnd.random() < 0.3])
     files[sub + "/test_a.py"] = File(sub + "/test_a.py", "import pytest\n", [test_block(rnd, k, names) for k in range(rnd.randint(1, 3))])
@@ -56,7 +60,10 @@ def gen_history(rnd: random.Random, root="/vh"):
     for _ in range(nedits):
         p = rnd.choice(order)
         f = files[p]
-        kind = rnd.choice(["add_fixture", "remove", "rename", "move", "add_test", "break", "repair", "resend", "imports", "remove_all"])
+        kind = rnd.choice(["add_fixture", "remove", "rename", "move", "add_test", "break", "repair", "resend", "imports", "remove_all", "retarget"])
+        if kind == "retarget":
+            p = sub + "/conftest.py"
+            f = files[p]
         if f.broken and kind not in ("repair", "resend"):
             kind = rnd.choice(["repair", kind])
         tags.append("edit:" + kind)
@@ -81,10 +88,17 @@ def gen_history(rnd: random.Random, root="/vh"):
             f.broken = True
         elif kind == "repair":
             f.broken = False
+        elif kind == "retarget":
+            if "from .helpers2 import *" in f.header:
+                f.header = f.header.replace("from .helpers2 import *", "from .helpers import *")
+            elif "from .helpers import *" in f.header:
+                f.header = f.header.replace("from .helpers import *", "from .helpers2 import *")
+            else:
+                f.header = "import pytest\nfrom .helpers2 import *\n"
         elif kind == "imports":
             if "from .helpers" in f.header:
                 f.header = "import pytest\n"
             elif p.endswith("conftest.py") and "/pkg/" in p:
                 f.header = "import pytest\nfrom .helpers import *\n"
         versions.append((p, f.text()))
-    return {"versions": versions, "names": names, "tags": tags}
+    return {"versions": versions, "names": names, "tags": tags, "nfiles": len(order)}
